@@ -217,6 +217,18 @@ class Report:
       })
     elif 'samples' not in cov:
       cov['samples'] = cov.get('obligation_samples', [])
+    for lr in getattr(self, 'lean', ()):
+      cov.setdefault('lean_lemmas', []).append(lr)
+      if lr['status'] == 'rejected':
+        errors.append('lean rejects %s: %s' % (lr['file'],
+                                               lr['output'][-300:]))
+      elif lr['status'] == 'accepted':
+        assumptions.append('%s: accepted by Lean 4 + Mathlib on this run '
+                           '(%.1f s)' % (lr['file'], lr['wall_s']))
+      else:
+        assumptions.append('%s: NOT machine-checked on this run (%s); the '
+                           'lemma is an unchecked assumption' %
+                           (lr['file'], lr.get('output', '')))
     level = mod.LEVEL
     if level == 'proof' and self.proof is not None:
       # proof level requires every obligation discharged (known findings are
@@ -291,6 +303,35 @@ def run_property(mod, tier, seed):
           nr['runs'] = r['runs'] + nr['runs']
           nr['verdict'] = backend.verdict(nr['runs'])
           rep.proof.obligations[i] = (o, nr)
+  rep.lean = [run_lean(f) for f in getattr(mod, 'LEAN', ())]
   if hasattr(mod, 'monitor'):
     rep.mon = mod.monitor(tier, seed)
   return rep
+
+
+def run_lean(fname):
+  """Checks a Lean 4 / Mathlib lemma file (code-independent mathematics an
+  SMT obligation uses as a hypothesis).  Rejection is a checker error; a
+  missing tool chain leaves the lemma an unchecked assumption."""
+  import shutil
+  import subprocess
+  import time
+  path = os.path.join(os.path.dirname(os.path.dirname(
+      os.path.abspath(__file__))), 'lean', fname)
+  mathlib = os.environ.get('MMVERIF_MATHLIB', '/opt/veriftools/mathlib4')
+  out = {'file': 'mmverif/lean/' + fname, 'status': 'not-run', 'wall_s': 0.0}
+  if shutil.which('lake') is None or not os.path.isdir(mathlib):
+    out['output'] = 'lake / mathlib not available'
+    return out
+  t0 = time.time()
+  try:
+    r = subprocess.run(['lake', 'env', 'lean', path], cwd=mathlib,
+                       capture_output=True, text=True, timeout=1800)
+    text = (r.stdout + r.stderr).strip()
+    bad = r.returncode != 0 or 'error' in text or 'sorry' in text
+    out['status'] = 'rejected' if bad else 'accepted'
+    out['output'] = text[-1500:]
+  except subprocess.TimeoutExpired:
+    out['output'] = 'timeout'
+  out['wall_s'] = round(time.time() - t0, 2)
+  return out
